@@ -27,7 +27,8 @@ import (
 // NoFormat file, as a formatted file, or - for the dense sweeps - as one file holding many
 // `var _ = <Lit(v)>` declarations).  The model predicts the bytes (Compare = CompareAll); the
 // oracle type-checks what the implementation wrote with go/types and compares the constant
-// go/constant computed with the Go value that was handed to Lit.
+// go/constant computed with the Go value that was handed to Lit.  Stream "repeat"
+// (c11_repeat.go) holds the SAME value several times under one render.
 type c11 struct{}
 
 func init() { Register(c11{}) }
@@ -369,6 +370,7 @@ var c1xGoType = map[string]*types.Basic{
 	"uint32": types.Typ[types.Uint32], "uint64": types.Typ[types.Uint64], "uintptr": types.Typ[types.Uintptr],
 	"float32": types.Typ[types.Float32], "float64": types.Typ[types.Float64],
 	"complex64": types.Typ[types.Complex64], "complex128": types.Typ[types.Complex128],
+	"string": types.Typ[types.String], // bystander literals of the repetition stream (c11_repeat.go)
 }
 
 func c1xSameFloat(got, want float64) bool {
@@ -409,6 +411,10 @@ func c1xCheckValue(tv types.TypeAndValue, v interface{}) string {
 	}
 	rv := reflect.ValueOf(v)
 	switch rv.Kind() {
+	case reflect.String:
+		if val.Kind() != constant.String || constant.StringVal(val) != rv.String() {
+			return fmt.Sprintf("value is %s", val.ExactString())
+		}
 	case reflect.Bool:
 		if val.Kind() != constant.Bool || constant.BoolVal(val) != rv.Bool() {
 			return fmt.Sprintf("value is %s", val)
@@ -949,6 +955,9 @@ func (c11) Generate(r *rand.Rand, t string) []*Case {
 		}
 		g.batch(vs, per, "float-batch")
 	}
+	// repetition of one value under one render (c11_repeat.go); drawn last, so that the draws
+	// of the older streams are unchanged
+	g.out = append(g.out, c11RepCases(r, t)...)
 	// the property speaks of finite values only: drop cases holding a non-finite one
 	// (complex64 conversions of float64 extremes)
 	var out []*Case
@@ -990,6 +999,9 @@ func (c11) Compare(c *Case, exp, got []hist.Obs) string { return CompareAll(exp,
 
 func (c11) Oracle(c *Case, got []hist.Obs) string {
 	lits := c.Meta["lits"].([]c1xLit)
+	if _, rep := c.Meta["rep"]; rep {
+		return c11RepOracle(c, got)
+	}
 	vals := make([]interface{}, len(lits))
 	for i, l := range lits {
 		vals[i] = l.V
@@ -1017,6 +1029,9 @@ func (c11) Oracle(c *Case, got []hist.Obs) string {
 
 // Shrink: every literal of a multi-literal case on its own.
 func (c11) Shrink(c *Case) []*Case {
+	if _, rep := c.Meta["rep"]; rep {
+		return c11RepShrink(c)
+	}
 	lits := c.Meta["lits"].([]c1xLit)
 	if len(lits) < 2 {
 		return nil
